@@ -40,6 +40,7 @@ pub fn general_alphabet() -> Vec<Mac> {
         Mac::Create { init: Init::Empty, value: 1000 },
         Mac::Create2 { init: Init::Code1, value: 0, salt: 0 },
         Mac::Create2 { init: Init::SelfDestruct, value: 1, salt: 1 },
+        Mac::Create2 { init: Init::Empty, value: 1, salt: OVF_SALT },
         Mac::Sstore(0, 1),
         Mac::Sstore(0, 0),
         Mac::Sstore(1, 0),
@@ -88,11 +89,15 @@ pub enum TxVar {
     CreateTx,
     SetCode,
     ZeroPrice,
+    /// EIP-1559 transaction whose max fee caps the priority fee (base fee <= max fee < base fee + tip)
+    Eip1559Capped,
+    /// 40 bytes of calldata (EIP-7623 floor above the intrinsic gas from Prague)
+    Calldata40,
 }
 impl TxVar {
     pub fn since(self) -> SpecId {
         match self {
-            TxVar::Eip1559 => SpecId::LONDON,
+            TxVar::Eip1559 | TxVar::Eip1559Capped => SpecId::LONDON,
             TxVar::AccessList => SpecId::BERLIN,
             TxVar::Blob => SpecId::CANCUN,
             TxVar::SetCode => SpecId::PRAGUE,
@@ -113,6 +118,8 @@ impl TxVar {
             TxVar::CreateTx,
             TxVar::SetCode,
             TxVar::ZeroPrice,
+            TxVar::Eip1559Capped,
+            TxVar::Calldata40,
         ]
     }
 }
@@ -173,6 +180,15 @@ pub fn make_case(spec: SpecId, var: TxVar, code: &[u8]) -> Option<TxCase> {
         TxVar::Eip1559 => {
             c.tx.gas_price = U256::from(20);
             c.tx.priority_fee = Some(U256::from(2));
+        }
+        TxVar::Eip1559Capped => {
+            c.tx.gas_price = U256::from(9);
+            c.tx.priority_fee = Some(U256::from(5));
+        }
+        TxVar::Calldata40 => {
+            let mut d = vec![0x11u8; 40];
+            d[3] = 0;
+            c.tx.data = Bytes::from(d);
         }
         TxVar::TightGas(k) => c.tx.gas_limit = 21000 + k,
         TxVar::SenderIsCoinbase => c.block.coinbase = SENDER,
